@@ -19,7 +19,8 @@ TIERS = {
 REQUIRED_BUCKETS = ['cls:OSError-family', 'cls:StopIteration', 'cls:UnicodeError', 'cls:SyntaxError', 'cls:ImportError', 'cls:AttributeError', 'cls:KeyError',
                     'cls:ExceptionGroup', 'cls:user-init-args', 'cls:user-new-args', 'cls:user-extra-attrs', 'cls:user-slots', 'cls:user-property',
                     'cls:user-custom-str', 'cls:user-multiple-inheritance', 'cls:user-shadowed-class-attr', 'cls:user-group-subclass', 'cls:BaseException-passthrough',
-                    'depth:1', 'depth:4', 'site:function', 'site:class-constructor', 'site:reference-evaluation', 'site:scoped', 'site:method']
+                    'depth:1', 'depth:4', 'site:function', 'site:class-constructor', 'site:reference-evaluation', 'site:scoped', 'site:method', 'site:hostile-signature',
+                    'cls:user-new-sets-state', 'cls:message-ends-with-whitespace', 'cls:TypeError-subclass']
 ORACLE_COUNTERS = ['oracle_evals', 'exceptions_compared', 'attributes_compared', 'except_clauses_tried']
 _S = {}
 
@@ -108,6 +109,45 @@ class UBase(BaseException):
   pass
 
 
+_serial = [0]
+
+
+class UNewState(Exception):
+  """State set in __new__ that is not a function of the arguments, then changed by __init__ and by the raiser."""
+
+  def __new__(cls, *args):
+    self = super().__new__(cls, *args)
+    _serial[0] += 1
+    self.serial = _serial[0]
+    self.stage = 'new'
+    self.count = 0
+    return self
+
+  def __init__(self, *args):
+    super().__init__(*args)
+    self.stage = 'init'
+
+
+class UTrailing(ValueError):
+  """A custom __str__ ending in whitespace (e.g. captured command output)."""
+
+  def __str__(self):
+    return 'captured output line\n\t '
+
+
+class UTypeError(TypeError):
+
+  def __init__(self, msg, info):
+    super().__init__(msg)
+    self.info = info
+
+
+def bump(e):
+  e.count += 5          # the raised object differs from a freshly constructed one
+  e.stage = 'about-to-raise'
+  return e
+
+
 def builtin_instances():
   """(bucket, factory) for every exception class in builtins."""
   out = []
@@ -162,6 +202,11 @@ def builtin_instances():
       ('cls:user-shadowed-class-attr', lambda: UShadow(99)),
       ('cls:user-group-subclass', lambda: UGroup('ug', [ValueError('v'), TypeError('t')], 'TAG')),
       ('cls:BaseException-passthrough', lambda: UBase('ubase')),
+      ('cls:user-new-sets-state', lambda: bump(UNewState('state', 1))),
+      ('cls:message-ends-with-whitespace', lambda: UTrailing('x')),
+      ('cls:message-ends-with-whitespace', lambda: ValueError('a message ending in a newline\n')),
+      ('cls:message-ends-with-whitespace', lambda: KeyError('trailing space ')),
+      ('cls:TypeError-subclass', lambda: UTypeError('bad type', {'expected': int})),
   ]
   return out
 
@@ -205,6 +250,22 @@ def setup(ctx):
     def c17meth(self, m=0):
       innermost()
 
+  @gin.configurable('c17kwonly', module='c17')
+  def kwonly(x, *, schema, strict):      # keyword-only parameters, none with a default
+    innermost()
+
+  @gin.configurable('c17varargs', module='c17')
+  def varargs(a, b=1, *rest, flag=False, **extra):
+    innermost()
+
+  @gin.register('c17Init', module='c17')
+  class Init:
+    def __init__(self, req, *, opt=None):
+      innermost()
+
+  _S['hostile'] = [lambda: kwonly(1, schema='s', strict=True), lambda: varargs(1, 2, 3, 4, flag=True, z=5), lambda: gin.get_configurable(Init)(0),
+                   lambda: kwonly(x=2, schema=None, strict=False)]
+  _S['hostile_names'] = ['kwonly', 'varargs', '__init__', 'kwonly']
   _S['levels'] = {1: f1, 2: f2, 3: C3, 4: gin.get_configurable(f4)}
   _S['cons'] = cons
   _S['K'] = K
@@ -214,7 +275,8 @@ def setup(ctx):
 def iter_cases(ctx, rng, n):
   inst = _S['instances']
   for i in range(n):
-    yield {'which': i % len(inst), 'depth': rng.choice([1, 1, 2, 3, 4]), 'site': rng.choice(['direct', 'direct', 'scoped', 'reference', 'method'])}
+    yield {'which': i % len(inst), 'depth': rng.choice([1, 1, 2, 3, 4]), 'site': rng.choice(['direct', 'direct', 'scoped', 'reference', 'method', 'hostile-signature']),
+           'hostile': rng.randrange(4)}
 
 
 def public_attrs(e):
@@ -267,6 +329,11 @@ def run_case(ctx, case):
       expected_levels = min(depth, 2) if depth <= 2 else 4
       depth = expected_levels
       _S['cons']()
+    elif site == 'hostile-signature':
+      ctx.bucket('site:hostile-signature')
+      expected_levels = 1
+      depth = 1
+      _S['hostile'][case['hostile']]()
     else:
       ctx.bucket('site:method')
       expected_levels = 1
@@ -338,7 +405,7 @@ def run_case(ctx, case):
   frames = [f.name for f in traceback.extract_tb(caught.__traceback__)]
   ctx.check('innermost' in frames, 'traceback-lost', '%s: traceback of the caught exception lacks the raising frame: %r' % (tname, frames))
   # the *original* traceback: every configurable body between the caller and the raise site is still there, outermost first
-  body = ['c17meth'] if site == 'method' else [['f1', 'f2', '__init__', 'f4'][i] for i in range(depth)][::-1]
+  body = ['c17meth'] if site == 'method' else ([_S['hostile_names'][case['hostile']]] if site == 'hostile-signature' else [['f1', 'f2', '__init__', 'f4'][i] for i in range(depth)][::-1])
   pos = [frames.index(b) if b in frames else -1 for b in body]
   ctx.check(-1 not in pos and pos == sorted(pos) and frames.index('innermost') > max(pos), 'traceback-frames-missing',
             '%s at depth %d via %s: traceback frames %r do not contain the bodies %r in call order' % (tname, depth, site, frames, body))
